@@ -49,7 +49,7 @@ def world() -> Dict[Tuple[str, str], R]:
         w[(c.fields["__module__"].v, c.fields["__qualname__"].v)] = c
         return c
     for m, q in [(MOD, "User"), (MOD, "Outer"), (MOD, "Outer.Inner"), (MOD, "NoneTypeHolder"), ("utils", "A"), ("my.utils", "B"), ("my.utils", "A"),
-                 ("foo", "Baz"), ("barfoo", "Qux"), ("mytyping", "X"), ("pkg.other", "Thing"), ("pkg.other", "Outer"), ("pkg.other", "Outer.Deep"),
+                 ("foo", "Baz"), ("barfoo", "Qux"), ("mytyping", "X"), ("pkg.other", "Thing"), ("pkg.other", "Outer"), ("pkg.other", "Outer.Deep"), ("pkg.other", "Outer.Deep.Deeper"), (MOD, "Outer.Inner.Core"),
                  ("_io", "StringIO"), ("pkg", "mod"), ("collections", "OrderedDict")]:
         add(cls(m, q))
     w[("io", "StringIO")] = w[("_io", "StringIO")]
@@ -84,6 +84,8 @@ def universe() -> List[Tuple[str, V]]:
         ("Optional[TypedDict]", gen("Union", td1, NONE_T)), ("Tuple[TypedDict, TypedDict]", gen("Tuple", td1, td2)), ("DefaultDict[str, TypedDict]", gen("DefaultDict", STR, td1)),
         ("Set[TypedDict]", gen("Set", td2)), ("nested TypedDict", anon_td({"inner": td1, "n": NONE_T})), ("TypedDict whose field uses typing and another module", anon_td({"k": gen("List", Th)})),
         ("Iterator[TypedDict]", gen("Iterator", td1)), ("Generator[TypedDict, None, int]", gen("Generator", td1, NONE_T, INT)),
+        ("class nested three levels deep in another module", C("pkg.other", "Outer.Deep.Deeper")), ("List[class nested three levels deep in another module]", gen("List", C("pkg.other", "Outer.Deep.Deeper"))),
+        ("own class nested three levels deep", C(MOD, "Outer.Inner.Core")),
     ]
     return out
 
@@ -260,6 +262,22 @@ def pipeline(repo: Repo, label: str, typ: V, policy: Optional[Dict[str, str]] = 
 
 REPLACE_SITES = {"'typing.'": "RenderAnnotation.rewrite `.replace('typing.', '')`", "'NoneType'": "RenderAnnotation.rewrite `.replace('NoneType', 'None')`",
                  "module + '.'": "FunctionStub.render `s.replace(module + '.', '')`"}
+
+
+def rule_pipeline_core(ctx: Ctx, repo: Repo, rule: str) -> None:
+    """the same translation validation on the types that involve no known finding (builtins, typing generics, classes of the
+    traced module itself and of one other module): used by C01, whose sentence evaluates the stub text as well"""
+    keep = ("int", "None", "own class", "own nested class", "Any", "List[int]", "Optional[own]", "Union[int, str, None]", "Tuple[()]", "Tuple[int, other]",
+            "Type[other]", "Type[own nested]", "Iterator[Any]", "DefaultDict[str, List[other]]", "Dict[str, Set[other]]", "TypedDict", "List[TypedDict]")
+    n = 0
+    for label, typ in universe():
+        if label not in keep:
+            continue
+        ok, why, _ = pipeline(repo, label, typ)
+        n += 1
+        ctx.check(ok, rule, f"{ST}.ModuleStub.render", "the annotation text of the stub, evaluated with the names the stub provides, denotes the inferred type",
+                  construct=f"{label}: {why}"[:300])
+    ctx.floor(rule, "types rendered and evaluated in the stub's own namespace", n, 12)
 
 
 def rule_pipeline(ctx: Ctx, repo: Repo) -> None:
